@@ -222,15 +222,15 @@ type e2World struct {
 	caseID string
 	cfg    e2Cfg
 
-	log   *e2Log
-	fx    *tmconsensustest.Fixture
-	vals  []tmconsensus.Validator
-	vset  tmconsensus.ValidatorSet
-	total uint64
-	gen   tmconsensus.Genesis
+	log    *e2Log
+	fx     *tmconsensustest.Fixture
+	vals   []tmconsensus.Validator
+	vset   tmconsensus.ValidatorSet
+	total  uint64
+	gen    tmconsensus.Genesis
 	vsetMu sync.Mutex
-	vsets map[uint64]tmconsensus.ValidatorSet // rotate: prescribed set per height
-	blocks map[string]*e2Block               // every candidate ever built, by hash
+	vsets  map[uint64]tmconsensus.ValidatorSet // rotate: prescribed set per height
+	blocks map[string]*e2Block                 // every candidate ever built, by hash
 
 	aStore  *e2AStore
 	fStore  *e2FStore
